@@ -1226,6 +1226,238 @@ theorem allInserts_length (p : Polyline ℝ) (maxLen : ℝ) (mask : List Bool) (
   unfold allInserts
   rw [List.length_zipWith, hm, segments_length_eq_numE, numE_eq]; simp
 
+/-! ### with_segments_bisected keeps the length (ℝ)
+
+  `np.insert` weaves blocks of points between the vertices: block `t` goes before vertex `t`.  The length of the
+  woven chain is that of the vertex chain as soon as every block lies straight between its two neighbours
+  (`pathLen_weave`).  For a closed polyline block 0 (the midpoint of the closing segment) comes *before* vertex 0:
+  the closed length is invariant under rotation of the vertex list (`pathLen_rotate`), which moves block 0 to the
+  end, between the last vertex and the repeated first vertex. -/
+
+/-- blocks `B i, B (i+1), …` woven before the vertices of a list (the last block after the end) -/
+def weave {α : Type} (B : Nat → List α) : Nat → List α → List α
+  | i, [] => B i
+  | i, x :: xs => B i ++ x :: weave B (i + 1) xs
+
+theorem insertBeforeFrom_eq_weave {α : Type} (ins : List (Nat × α)) (i : Nat) (v : List α) :
+    insertBeforeFrom ins i v = weave (ptsAt ins) i v := by
+  induction v generalizing i with
+  | nil => rfl
+  | cons x xs ih => rw [insertBeforeFrom_cons, ih]; rfl
+
+/-- the last point of the chain `x :: xs` -/
+def lastOf {α : Type} : α → List α → α
+  | x, [] => x
+  | _, y :: ys => lastOf y ys
+
+theorem lastOf_getElem? {α : Type} (x : α) (xs : List α) : (x :: xs)[xs.length]? = some (lastOf x xs) := by
+  induction xs generalizing x with
+  | nil => rfl
+  | cons y ys ih => simpa [lastOf] using ih y
+
+theorem pathLen_snoc (x : V3 ℝ) (xs : List (V3 ℝ)) (z : V3 ℝ) :
+    pathLen (x :: xs ++ [z]) = pathLen (x :: xs) + dist (lastOf x xs) z := by
+  induction xs generalizing x with
+  | nil => simp [pathLen, lastOf]
+  | cons y ys ih =>
+    have := ih y
+    simp only [List.cons_append, pathLen, lastOf] at this ⊢
+    rw [this]; ring
+
+/-- the closed length does not depend on where the cyclic vertex list is cut -/
+theorem pathLen_rotate (l r : List (V3 ℝ)) :
+    pathLen ((l ++ r) ++ (l ++ r).take 1) = pathLen ((r ++ l) ++ (r ++ l).take 1) := by
+  cases l with
+  | nil => simp
+  | cons a l' =>
+    cases r with
+    | nil => simp
+    | cons b r' =>
+      have e1 : ((a :: l') ++ (b :: r')) ++ ((a :: l') ++ (b :: r')).take 1 = (a :: l') ++ b :: (r' ++ [a]) := by
+        simp
+      have e2 : ((b :: r') ++ (a :: l')) ++ ((b :: r') ++ (a :: l')).take 1 = (b :: r') ++ a :: (l' ++ [b]) := by
+        simp
+      rw [e1, e2, pathLen_join (a :: l') b (r' ++ [a]), pathLen_join (b :: r') a (l' ++ [b])]
+      simp only [List.cons_append]
+      ring
+
+/-- every block lies straight between the two vertices it is woven between -/
+def StraightFrom (B : Nat → List (V3 ℝ)) : Nat → V3 ℝ → List (V3 ℝ) → Prop
+  | _, _, [] => True
+  | i, x, y :: ys => pathLen (x :: B i ++ [y]) = dist x y ∧ StraightFrom B (i + 1) y ys
+
+/-- weaving straight blocks into a chain keeps its length; what follows the last vertex (`B (i + n) ++ T`) is
+    accounted for separately -/
+theorem pathLen_weave (B : Nat → List (V3 ℝ)) (i : Nat) (x : V3 ℝ) (xs T : List (V3 ℝ))
+    (hs : StraightFrom B i x xs) :
+    pathLen (x :: weave B i xs ++ T) =
+      pathLen (x :: xs) + pathLen (lastOf x xs :: B (i + xs.length) ++ T) := by
+  induction xs generalizing i x with
+  | nil => simp [weave, lastOf, pathLen]
+  | cons y ys ih =>
+    obtain ⟨h0, hs'⟩ := hs
+    have e : x :: weave B i (y :: ys) ++ T = (x :: B i) ++ y :: (weave B (i + 1) ys ++ T) := by
+      simp [weave]
+    rw [e, pathLen_join]
+    have := ih (i + 1) y hs'
+    simp only [List.cons_append] at this h0 ⊢
+    rw [this, h0]
+    simp only [pathLen, lastOf, List.length_cons]
+    have e2 : i + 1 + ys.length = i + (ys.length + 1) := by omega
+    rw [e2]; ring
+
+/-- the midpoint of two points -/
+noncomputable def midpoint (a b : V3 ℝ) : V3 ℝ := ⟨(a.x + b.x) / 2, (a.y + b.y) / 2, (a.z + b.z) / 2⟩
+
+theorem dist_midpoint_left (a b : V3 ℝ) : dist a (midpoint a b) = dist a b / 2 := by
+  rw [dist_def, dist_def]
+  simp only [midpoint]
+  have : (((a.x + b.x) / 2 - a.x) * ((a.x + b.x) / 2 - a.x) + ((a.y + b.y) / 2 - a.y) * ((a.y + b.y) / 2 - a.y) +
+      ((a.z + b.z) / 2 - a.z) * ((a.z + b.z) / 2 - a.z)) =
+      ((b.x - a.x) * (b.x - a.x) + (b.y - a.y) * (b.y - a.y) + (b.z - a.z) * (b.z - a.z)) * ((1 / (2 : ℝ)) ^ 2) := by
+    ring
+  rw [this, Real.sqrt_mul' _ (sq_nonneg _), Real.sqrt_sq (by positivity)]
+  ring
+
+theorem dist_midpoint_right (a b : V3 ℝ) : dist (midpoint a b) b = dist a b / 2 := by
+  rw [dist_def, dist_def]
+  simp only [midpoint]
+  have : ((b.x - (a.x + b.x) / 2) * (b.x - (a.x + b.x) / 2) + (b.y - (a.y + b.y) / 2) * (b.y - (a.y + b.y) / 2) +
+      (b.z - (a.z + b.z) / 2) * (b.z - (a.z + b.z) / 2)) =
+      ((b.x - a.x) * (b.x - a.x) + (b.y - a.y) * (b.y - a.y) + (b.z - a.z) * (b.z - a.z)) * ((1 / (2 : ℝ)) ^ 2) := by
+    ring
+  rw [this, Real.sqrt_mul' _ (sq_nonneg _), Real.sqrt_sq (by positivity)]
+  ring
+
+/-- splitting a segment at its midpoint keeps its length -/
+theorem dist_split_midpoint (a b : V3 ℝ) : dist a (midpoint a b) + dist (midpoint a b) b = dist a b := by
+  rw [dist_midpoint_left, dist_midpoint_right]; ring
+
+/-- copies of one point `m`, then `b` -/
+theorem pathLen_copies (m b : V3 ℝ) (L : List (V3 ℝ)) (hL : ∀ c ∈ L, c = m) :
+    pathLen (m :: L ++ [b]) = dist m b := by
+  induction L with
+  | nil => simp [pathLen]
+  | cons c L' ih =>
+    have hc : c = m := hL c (by simp)
+    subst hc
+    have := ih (fun d hd => hL d (by simp [hd]))
+    simp only [List.cons_append, pathLen] at this ⊢
+    rw [this, dist_self]; ring
+
+/-- a block of copies of the midpoint of `(a, b)` (the same segment index given several times: `np.insert`
+    puts the midpoint in once per occurrence, the extra segments have length zero) lies straight between `a`
+    and `b` -/
+theorem pathLen_mid_block (a b : V3 ℝ) (L : List (V3 ℝ)) (hL : ∀ c ∈ L, c = midpoint a b) :
+    pathLen (a :: L ++ [b]) = dist a b := by
+  cases L with
+  | nil => simp [pathLen]
+  | cons c L' =>
+    have hc : c = midpoint a b := hL c (by simp)
+    subst hc
+    have := pathLen_copies (midpoint a b) b L' (fun d hd => hL d (by simp [hd]))
+    simp only [List.cons_append, pathLen] at this ⊢
+    rw [this]
+    exact dist_split_midpoint a b
+
+theorem straightFrom_of_mid (B : Nat → List (V3 ℝ)) (i : Nat) (x : V3 ℝ) (xs : List (V3 ℝ))
+    (h : ∀ k a b, (x :: xs)[k]? = some a → (x :: xs)[k + 1]? = some b → ∀ m ∈ B (i + k), m = midpoint a b) :
+    StraightFrom B i x xs := by
+  induction xs generalizing i x with
+  | nil => trivial
+  | cons y ys ih =>
+    refine ⟨pathLen_mid_block x y (B i) (h 0 x y rfl rfl), ih (i + 1) y ?_⟩
+    intro k a b ha hb m hm
+    have e : i + 1 + k = i + (k + 1) := by omega
+    rw [e] at hm
+    exact h (k + 1) a b (by simpa using ha) (by simpa using hb) m hm
+
+theorem ptsAt_eq_nil {α : Type} (ins : List (Nat × α)) (t : Nat) (h : ∀ x ∈ ins, x.1 ≠ t) : ptsAt ins t = [] := by
+  unfold ptsAt
+  rw [List.map_eq_nil_iff, List.filter_eq_nil_iff]
+  intro x hx
+  simpa using h x hx
+
+theorem mem_ptsAt {α : Type} {ins : List (Nat × α)} {t : Nat} {m : α} (h : m ∈ ptsAt ins t) : (t, m) ∈ ins := by
+  unfold ptsAt at h
+  obtain ⟨x, hx, rfl⟩ := List.mem_map.mp h
+  obtain ⟨hx1, hx2⟩ := List.mem_filter.mp hx
+  have : x.1 = t := by simpa using hx2
+  rw [← this]; exact hx1
+
+/-- the weaving lemma for an open polyline: nothing before the first vertex, nothing after the last -/
+theorem pathLen_weave_open (B : Nat → List (V3 ℝ)) (x : V3 ℝ) (xs : List (V3 ℝ))
+    (h0 : B 0 = []) (hn : B (xs.length + 1) = []) (hs : StraightFrom B 1 x xs) :
+    pathLen (weave B 0 (x :: xs)) = pathLen (x :: xs) := by
+  have := pathLen_weave B 1 x xs [] hs
+  simp only [List.append_nil] at this
+  rw [weave, h0, List.nil_append, this, Nat.add_comm 1, hn]
+  simp [pathLen]
+
+/-- the weaving lemma for a closed polyline: block 0 is straight between the last vertex and the first -/
+theorem pathLen_weave_closed (B : Nat → List (V3 ℝ)) (x : V3 ℝ) (xs : List (V3 ℝ))
+    (h0 : pathLen (lastOf x xs :: B 0 ++ [x]) = dist (lastOf x xs) x)
+    (hn : B (xs.length + 1) = []) (hs : StraightFrom B 1 x xs) :
+    pathLen (weave B 0 (x :: xs) ++ (weave B 0 (x :: xs)).take 1) = pathLen ((x :: xs) ++ [x]) := by
+  rw [weave, pathLen_rotate]
+  have e : (x :: weave B (0 + 1) xs ++ B 0) ++ (x :: weave B (0 + 1) xs ++ B 0).take 1 =
+      x :: weave B 1 xs ++ (B 0 ++ [x]) := by simp
+  rw [e, pathLen_weave B 1 x xs _ hs, Nat.add_comm 1, hn]
+  simp only [List.nil_append, List.cons_append, List.singleton_append] at h0 ⊢
+  have := pathLen_snoc x xs x
+  simp only [List.cons_append] at this
+  rw [this, h0]
+
+/-! ### subdivide_segment / subdivide_segments keep the length (ℝ) -/
+
+theorem getLast?_eq_lastOf {α : Type} (x : α) (xs : List α) : (x :: xs).getLast? = some (lastOf x xs) := by
+  induction xs generalizing x with
+  | nil => rfl
+  | cons y ys ih => rw [List.getLast?_cons_cons, ih y]; rfl
+
+/-- the points `subdivide_segments` puts on one segment: `a` itself, then the interior points -/
+theorem block_eq_cons (a b : V3 ℝ) (m : Nat) :
+    ((List.range (m + 1)).map fun (k : Nat) => lerp a b ((k : ℝ) / ((m + 1 : Nat) : ℝ))) =
+      a :: (List.range m).map fun (k : Nat) => lerp a b (((k + 1 : Nat) : ℝ) / ((m + 1 : Nat) : ℝ)) := by
+  rw [List.range_succ_eq_map]
+  simp only [List.map_cons, List.map_map, Nat.cast_zero, zero_div, lerp_zero, Function.comp_def]
+
+/-- `num ≥ 1` evenly spaced points per segment, last vertex appended: the chain starts at the first vertex and has
+    the length of the original chain -/
+theorem pathLen_subdivided_chain (num : Nat) (hnum : 0 < num) (a : V3 ℝ) (rest : List (V3 ℝ)) :
+    ∃ T, (List.zip (a :: rest) rest).flatMap (fun s => (List.range num).map fun (k : Nat) =>
+        lerp s.1 s.2 ((k : ℝ) / (num : ℝ))) ++ [lastOf a rest] = a :: T ∧
+      pathLen (a :: T) = pathLen (a :: rest) := by
+  obtain ⟨m, rfl⟩ : ∃ m, num = m + 1 := ⟨num - 1, by omega⟩
+  induction rest generalizing a with
+  | nil => exact ⟨[], by simp [lastOf], rfl⟩
+  | cons b rest' ih =>
+    obtain ⟨T, hT, hlen⟩ := ih b
+    refine ⟨((List.range m).map fun (k : Nat) => lerp a b (((k + 1 : Nat) : ℝ) / ((m + 1 : Nat) : ℝ))) ++ b :: T, ?_, ?_⟩
+    · simp only [List.zip_cons_cons, List.flatMap_cons, lastOf, List.append_assoc]
+      rw [hT, block_eq_cons]
+      simp
+    · have hj := pathLen_join (a :: (List.range m).map fun (k : Nat) =>
+        lerp a b (((k + 1 : Nat) : ℝ) / ((m + 1 : Nat) : ℝ))) b T
+      have hs := even_points_straight a b (m + 1) (by omega)
+      simp only [Nat.add_sub_cancel, List.cons_append] at hj hs ⊢
+      rw [hj, hs, hlen]
+      simp [pathLen]
+
+/-- `n + 1` evenly spaced parameters `k/d`, `k = 0..n`, on a segment span `n/d` of its length -/
+theorem pathLen_even_params (a b : V3 ℝ) (n d : Nat) (hd : 0 < d) :
+    pathLen ((List.range (n + 1)).map fun (k : Nat) => lerp a b ((k : ℝ) / (d : ℝ))) = dist a b * (n : ℝ) / (d : ℝ) := by
+  rw [pathLen_map_range]
+  have : ((List.range n).map fun (k : Nat) =>
+      dist (lerp a b ((k : ℝ) / (d : ℝ))) (lerp a b (((k + 1 : Nat) : ℝ) / (d : ℝ)))) =
+      (List.range n).map fun _ => dist a b / (d : ℝ) := by
+    apply List.map_congr_left
+    intro k _
+    exact dist_lerp_step a b d k hd
+  rw [this]
+  simp only [List.map_const', List.length_range, List.sum_replicate, nsmul_eq_mul]
+  ring
+
 end Real
 
 end PW.ArcLength
